@@ -10,7 +10,7 @@ import tempfile
 import time
 from pathlib import Path
 
-from tools.corr import C09_occ
+from tools.corr import C09_history, C09_occ
 from tools.corr.C09_defs import COMBOS, Builder
 from tools.corr.C09_runner import KProperty, is_sub_threshold, physical_point
 from tools.lib import common
@@ -267,12 +267,29 @@ def sweep(chk, rng, tier: str, bad: list, known: list, stats: dict) -> None:
                     _judge(chk, case, ("sweep", phsp, nc, np_, L, placement, j), bad, known, stats)
 
 
+_HISTORY: dict = {"bad": []}
+
+
+def _history_tie(chk, ctx):
+    """Call histories in one process (tools/corr/C09_history.py): correspondence with the Lean state machine
+    (Drivers/C09History.lean) + the statement of C09 on every call + purity vs reversed history / fresh process."""
+    _HISTORY["bad"] = []
+    try:
+        _HISTORY["bad"] = C09_history.run(chk, common.rng_for("C09", ctx["seed"], "history"), ctx["tier"], ctx["seed"])
+    except common.InfraError:
+        raise
+    except Exception as e:  # noqa: BLE001
+        import traceback
+
+        chk.broken_correspondence("history", "".join(traceback.format_exception(type(e), e, e.__traceback__))[-900:])
+
+
 def search(chk, rng, n_cases: int, tier: str):
     """Independent oracle: the statement of C09 on the real code. Real parameters, s above all
     thresholds and away from the poles, poles on both sides of the thresholds: a deterministic sweep
     over the phase-space implementations × pole placements, random configurations, and the
     argument-forwarding statement on the real objects."""
-    bad: list = []
+    bad: list = list(_HISTORY["bad"])  # failing calls of the call histories (post hook, run before the search)
     known: list = []
     stats: dict = {}
     t0 = time.time()
@@ -481,6 +498,12 @@ def signature_of(f: dict) -> dict:
     passed (ρ_i(m_R²) not real and positive: PhaseSpaceFactor / PhaseSpaceFactorComplex with a pole below a
     threshold). A sub-threshold pole with a factor that is real and positive there (PhaseSpaceFactorAbs)
     satisfies the guard: a failure on such an input is a violation."""
+    if "history_payload" in f:
+        # a call of a call history: the hypotheses were evaluated for the factor passed to THAT call, at points with
+        # every pole above every threshold — never an input of the sub-threshold findings
+        return {"class": C09_history.HISTORY_CLASS, "what": f.get("what"), "cls": f.get("class"),
+                "factor_kind": str(f.get("call", {}).get("phsp", "")).split(":")[0],
+                "rho_at_pole_real_positive": f.get("rho_at_pole_real_positive", True)}
     if f.get("kind") == "rel" and "values" in f:
         c = classify(f)  # recomputed from the stored input, never taken from the record
         if not c["rho_at_pole_real_positive"]:
@@ -499,6 +522,10 @@ def replay(data: dict) -> int:
     """./check C09 --replay FILE : re-evaluate the stored failing input on the current tree."""
     common.use_repo_source()
     case = data.get("input", data)
+    if "history_payload" in case:
+        print(json.dumps({k: v for k, v in case.items() if k not in ("history_payload", "point", "library", "expected")},
+                         indent=1, default=str))
+        return C09_history.replay_history(case)
     if "passed" in case:  # a forwarding case
         import sympy as sp
 
@@ -552,7 +579,8 @@ PROP = KProperty(
     namespace="C09",
     build=build,
     search=search,
-    prop_modules=["Ampverif.Props.C09"],
+    prop_modules=["Ampverif.Props.C09", "Ampverif.Props.C09History"],
+    post=_history_tie,
     signature_of=signature_of,
     n_points={"quick": 6, "thorough": 40},
     n_search={"quick": 60, "thorough": 900},
@@ -561,11 +589,13 @@ PROP = KProperty(
     trusted=(
         "phase-space factors and form factors are leaves of the Lean model (their reality/positivity above threshold are hypotheses; C11/C12 are about them)",
         "occurrence sets are collected by a preorder traversal of the real sympy objects (tools/corr/C09_occ.py occurrences)",
+        "history tie: skeleton canonicaliser / digest of tools/corr/C10_history.py (identity of EnergyDependentWidth.phsp_factor, "
+        "preorder traversal), driven by tools/corr/C09_history.py; OS process boundaries as the meaning of 'fresh process'",
     ),
 )
 
 MANIFEST = {
-    "technique": "Lean 4 theorems (Mathlib matrices, all sizes) + definitions and an occurrence table regenerated from kmatrix.py (translator, formulate() called with a marker phase-space implementation), Float-twin validation against the real lambdified code, independent numeric oracle on formulate()",
+    "technique": "Lean 4 theorems (Mathlib matrices, all sizes) + definitions and an occurrence table regenerated from kmatrix.py (translator, formulate() called with a marker phase-space implementation), Float-twin validation against the real lambdified code, independent numeric oracle on formulate(); call histories: Lean state machine with a process-global cache + history correspondence + unitarity/purity oracle per call",
     "design_ref": "DESIGN.md §3 C09",
     "text": (
         "Proof. For EVERY number of channels (Matrix n n ℂ, any finite n) and every finite pole set: K Hermitian ⇒ 1−iK invertible "
@@ -573,7 +603,7 @@ MANIFEST = {
         "ρ positive diagonal and K̂ Hermitian ⇒ √ρK̂(1−iρK̂)⁻¹√ρ = K'(1−iK')⁻¹ with K' = √ρK̂√ρ, hence unitary/symmetric; the pole "
         "parametrisation Σ_R g_Ri g_Rj/(m_R²−s) is real symmetric for real g (Finset sum, any number of poles). Tied to the source: the "
         "entries of formulate(parametrize=False) for n = 1, 2 (both classes, T̂ and T), the parametrisations (n_R = 1..4) and the full "
-        "formulate(n, n_R) results for n, n_R ∈ {1,2} are re-translated on every run and 73 theorems are re-checked: the "
+        "formulate(n, n_R) results for n, n_R ∈ {1,2} are re-translated on every run and 80 theorems are re-checked: the "
         "regenerated entries solve E(1−iK) = K resp. Ê(1−iρK̂) = K̂ (polynomial identities mod i² = −1) and therefore ARE the abstract "
         "formula wherever det ≠ 0; T = (√ρ)*T̂√ρ; the regenerated parametrisations are symmetric and real (non-negative widths; for the "
         "relativistic case under the guard ρ_i(m_R²) > 0 for the phase-space factor in use, real form factors) and — both classes, "
@@ -586,12 +616,28 @@ MANIFEST = {
         "matrix expression, every width's phsp_factor / L / d, the ρ and form-factor nodes inside every evaluated width) contains exactly "
         "the passed arguments (formulate_forwards_arguments, decide). Thorough tier: the same entry-level theorems for n = 3 "
         "(Props/C09N3, 14 theorems; the 3×3 symbolic inverse is extracted in a time-capped subprocess) and the full formulate(n, n_R) "
-        "for n ∈ {1,2}, n_R ∈ {3,4} (Props/C09P34, 32 theorems) — 119 theorems in total. Oracle (S†S = 1, T = Tᵀ on the real "
+        "for n ∈ {1,2}, n_R ∈ {3,4} (Props/C09P34, 32 theorems) — 126 theorems in total. Oracle (S†S = 1, T = Tᵀ on the real "
         "formulate()): a sweep over every phase-space implementation that is real above threshold × pole 1 above / between / below the "
         "thresholds, random configurations, and the forwarding statement for every implementation of dynamics/phasespace.py with symbolic "
         "and numeric L, d. Each input is classified by evaluating the hypotheses of the theorems for the caller's arguments (ρ_i(s), "
         "ρ_i(m_R²) real positive, form factors real): where they hold a failure is a violation — in particular for poles below a "
         "threshold with PhaseSpaceFactorAbs. Bounded part: full formulate with n = 3 only numerically (thorough oracle, n_R ≤ 2); "
+        "Call HISTORIES (Props/C09History.lean, 7 theorems over the state machine Model/C10History.lean shared with C10: a call "
+        "looks its energy-dependent widths up in a process-global cache keyed on (L, d, key(factor object))): for every history of "
+        "formulate() calls in one process, every key injective on factor objects and every predicate `good` on factor objects, if "
+        "the factor passed to call k is good then every width of result k carries that (good) factor with the L / radius of call k "
+        "and every ρ node is the passed factor's (kmatrix_history_guard, …_injective_key) — the hypotheses of Part D evaluated for "
+        "the arguments of a call ARE hypotheses about the leaves of its result, whatever was formulated before; result k is n×n with "
+        "its own symbol families (kmatrix_history_shape); kernel-checked witnesses for the key 'qualified name' (complex closure "
+        "first, real closure second: a width carrying the complex factor; reverse order; return_t_hat). Tie: tools/corr/C09_history.py "
+        "runs seeded histories of NonRelativisticKMatrix / RelativisticKMatrix.formulate (n, n_R ∈ {1,2}, return_t_hat on/off, "
+        "parametrize on/off, L / radius numbers and symbols) in worker processes with phase-space factors passed as library classes, "
+        "closures of one factory, lambdas of one scope (also lambdas that only attach name= to a library class), named functions, "
+        "functools.partial objects, callable instances and bound methods, complex (Chew-Mandelstam, two harness conventions) and real "
+        "ones alternating, each history also reversed; for EVERY call: skeleton = Lean model's line, occurrences by object identity, "
+        "S†S = 1 and T = Tᵀ where ρ_i(s), ρ_i(m_R²) > 0 and the form factors are real for the object passed to THAT call (called "
+        "directly), deviation from an independent numpy solution with that object, digest equal to the reversed history's and to a "
+        "fresh process's (30 calls in the quick tier, every call in the thorough tier). Bounded: the history model's skeleton abstracts the algebra of the entries. "
         "n_R = 3, 4 full formulate in the thorough tier only (quick: parametrisation level); the poleK instance theorems are for "
         "n = n_R = 2; form factors and phase-space factors are leaves with sign hypotheses. Known finding: the relativistic K-matrix with "
         "a pole mass below a channel threshold is not unitary when ρ(m_R²) of the factor in use is not real positive (PhaseSpaceFactor, "
